@@ -69,7 +69,9 @@ def inodeLoc (g : InoGeo) (tables : List Nat) (n : Nat) : Option (Nat × Nat) :=
     else
       let byteStart := (tables.getD bg 0 * g.blockSize) % 18446744073709551616
       let offset := ((n - 1) % g.inodesPerGroup * g.inodeSize) % 4294967296
-      some (byteStart + offset, g.inodeSize)
+      -- int64(byteStart)+int64(offset): the sum modulo 2^64 (a value ≥ 2^63 is a negative offset, which
+      -- every backend refuses: `inodeRawLoc` below reports it as beyond the device)
+      some ((byteStart + offset) % 18446744073709551616, g.inodeSize)
 
 /-- readInodeRaw from the raw descriptor table: decode, locate, and fail when the read reaches
     beyond the device -/
